@@ -1220,6 +1220,35 @@ def evCallsN (e : Event) : List HTok :=
 /-- The normal form the hash is meant to respect. -/
 def hnorm (v : Value) : List HTok := (evsV v).flatMap evCallsN
 
+
+/-! ## helpers shared by the monitor and the theorems about `incremental_compare` -/
+
+/-- Two event lists agree event by event. -/
+def evsAgree : List Event → List Event → Bool
+  | [], [] => true
+  | e :: a, f :: b => e.beq f && evsAgree a b
+  | _, _ => false
+
+/-- A brace event (the only events `incremental_compare` ever skips). -/
+def Event.isBrace (e : Event) : Bool := e.beq .startBody || e.beq .endRecord
+
+/-- The events of a stream without the braces. -/
+def leavesOf (es : List Event) : List Event := es.filter fun e => !e.isBrace
+
+/-- Feed a list of events to a validator. -/
+def feedAll (v : VV) : List Event → VV
+  | [] => v
+  | e :: es => feedAll (v.feed e).1 es
+
+/-- The stream is one complete value for the validator: `InProgress` after every proper non-empty prefix, `Init` at
+the end (what the parser produces for a valid text). -/
+def midOk (v : VV) : List Event → Bool
+  | [] => false
+  | [e] => (v.feed e).1.state == .init
+  | e :: e' :: r => (v.feed e).1.state == .inProgress && midOk (v.feed e).1 (e' :: r)
+
+def singleB (s : List Event) : Bool := midOk {} s
+
 /-! ## The float fragment (same test as the harness) -/
 
 def isDigDot (c : Char) : Bool := c.isDigit || c = '.'
